@@ -270,10 +270,17 @@ def eval_case(lane, client, case):
     impl = r.get('impl', [])
     model = client.ask(lines) if lines else []
     diffs = []
+    soft = []
+    soft_prefixes = tuple(getattr(lane, 'WHITE_BOX_PREFIXES', ()))
     for i, (a, b) in enumerate(zip(impl, model)):
         if a is None:
             continue          # line sent only for its effect on the model state
         if a != b:
+            if soft_prefixes and lines[i].startswith(soft_prefixes):
+                # a white-box line (the code's PRIVATE containers against the model's): the layout of private state is not
+                # behaviour, so a difference here is recorded and shown, never a verdict by itself
+                soft.append({'index': i, 'line': lines[i][:200], 'impl': a[:300], 'model': b[:300]})
+                continue
             diffs.append({'index': i, 'line': lines[i], 'impl': a, 'model': b})
     oracle = list(r.get('oracle', []))
     if getattr(lane, 'DIFF_IS_FAILURE', False) and diffs:
@@ -284,7 +291,7 @@ def eval_case(lane, client, case):
                       f"impl={d['impl'][:160]!r} reference={d['model'][:160]!r}")
     return {'case': case, 'diffs': diffs[:5], 'ndiffs': len(diffs), 'oracle': oracle[:5],
             'nontrivial': bool(r.get('nontrivial', False)), 'key': r.get('key', ''), 'tags': r.get('tags', []),
-            'nlines': len(lines)}
+            'nlines': len(lines), 'soft': soft[:2], 'nsoft': len(soft)}
 
 
 def _worker_run(chunk):
@@ -503,6 +510,7 @@ def run_check(prop, tier, seed, replay=None, jobs=None):
     keys = set()
     samples = []
     corr_breaks, oracle_fails, crashes = [], [], []
+    soft_samples = []
 
     if build_ok and not os.path.exists(DRIVER):
         machinery.append('driver binary missing after build')
@@ -554,6 +562,10 @@ def run_check(prop, tier, seed, replay=None, jobs=None):
                         crashes.append(r)
                         continue
                     counters['lines'] += r['nlines']
+                    if r.get('nsoft'):
+                        counters['white_box_differences'] += r['nsoft']
+                        if len(soft_samples) < 3:
+                            soft_samples.extend(r['soft'][:1])
                     for t in r['tags']:
                         counters['tag:' + t] += 1
                     if r['nontrivial']:
@@ -703,6 +715,9 @@ def run_check(prop, tier, seed, replay=None, jobs=None):
             'rule': lane.RULE, 'samples': samples, 'protocol_lines_compared': counters['lines'],
             'traces_validated_against_impl': counters['evaluations'] - len(corr_breaks) - len(crashes),
             'correspondence_disagreements': len(corr_breaks), 'oracle_failures': len(oracle_fails),
+            'white_box_differences': {'count': counters['white_box_differences'], 'samples': soft_samples,
+                                      'meaning': 'private containers of the implementation differ from the index-level model of '
+                                                 'the same state; private layout is not behaviour, so this is recorded, not judged'},
             'input_distribution': tags, 'exhaustive': bool(getattr(lane, 'EXHAUSTIVE', {}).get(tier, False)),
             'known_findings_seen': sorted(k['id'] for k in seen_known.values()),
             'generated_files_changed': gen_changed,
@@ -727,6 +742,9 @@ def run_check(prop, tier, seed, replay=None, jobs=None):
         for m in machinery:
             print('MACHINERY: ' + m, file=sys.stderr)
         return 2
+    if counters['white_box_differences']:
+        print(f'NOTE {prop}: {counters["white_box_differences"]} white-box line(s) differ (private containers of the '
+              f'implementation vs. the index-level model; recorded in the evidence, not a verdict)')
     for path, suffix in violations:
         print(f'VIOLATION property={prop} replay={path}{suffix}')
     if violations:
